@@ -145,7 +145,7 @@ def main():
             fl.append(e)
             nob += good
             nsk += len(sk)
-        if fl:
+        if fl and nob > 0:
             out[pid] = {'title': title(pid), 'functions': fl, 'trusted_base': [], 'note': cfg['note']}
         report.append(f'{pid}: {len(fl)} functions, {nob} obligations claimed, {nsk} left undecided')
     out['_lemmas'] = {'title': 'lemma table (skip lists for lemmas pulled in by use clauses)', 'functions': lemmas, 'trusted_base': [], 'note': ''}
